@@ -305,3 +305,30 @@ package proto
 //@   ensures (err == nil ==> r.pos == old(r.pos) + uvlen(r.in, old(r.pos)) && r.failed == old(r.failed)) && (r.failed && !old(r.failed) ==> err != nil) && old(r.pos) <= r.pos && r.pos <= r.end
 //@   ensures old(r.pos) + uvlen(r.in, old(r.pos)) > r.end ==> err != nil
 //@   ensures err == nil ==> n == i64(uvval(r.in, old(r.pos))) && 0 <= n
+
+//@ -- strOK: a length-prefixed string was consumed: varint length n, then n bytes
+//@ spec func strN(r Val) Int = i64(uvval(r.in, old(r.pos)))
+//@ spec func strAt(r Val) Int = old(r.pos) + uvlen(r.in, old(r.pos))
+//@ spec func strOK(r Val, err Val) Bool = (err == nil ==> 0 <= strN(r) && r.pos == strAt(r) + strN(r) && r.failed == old(r.failed)) && (r.failed && !old(r.failed) ==> err != nil) && old(r.pos) <= r.pos && r.pos <= r.end && (err == nil ==> strAt(r) + strN(r) <= r.end)
+
+//@ contract (r *Reader) StrRaw() (out, err) props(C01,C06,C07,C08,C17)
+//@   requires r != nil
+//@   modifies r.pos, r.failed, r.b.Buf
+//@   ensures strOK(r, err)
+//@   ensures err == nil ==> len(out) == strN(r) && forall k in 0..len(out) :: out[k] == r.in[strAt(r) + k]
+//@ contract (r *Reader) StrAppend(buf) (out, err) props(C01,C06,C07,C08,C17)
+//@   requires r != nil
+//@   modifies r.pos, r.failed, r.b.Buf
+//@   ensures strOK(r, err)
+//@   ensures err == nil ==> len(out) == len(buf) + strN(r) && forall k in 0..strN(r) :: out[len(buf) + k] == r.in[strAt(r) + k]
+//@   ensures err == nil ==> forall k in 0..len(buf) :: out[k] == old(buf[k])
+//@ contract (r *Reader) StrBytes() (out, err) props(C01,C06,C07,C08,C17)
+//@   requires r != nil
+//@   modifies r.pos, r.failed, r.b.Buf
+//@   ensures strOK(r, err)
+//@   ensures err == nil ==> len(out) == strN(r) && forall k in 0..len(out) :: out[k] == r.in[strAt(r) + k]
+//@ contract (r *Reader) Str() (s, err) props(C01,C06,C07,C08,C17)
+//@   requires r != nil
+//@   modifies r.pos, r.failed, r.b.Buf
+//@   ensures strOK(r, err)
+//@   ensures err == nil ==> len(s) == strN(r) && forall k in 0..len(s) :: s[k] == r.in[strAt(r) + k]
